@@ -175,6 +175,7 @@ fn main() {
         double_interrupt: get("double", "0") == "1",
         paths: get("paths", "0").parse().unwrap(),
         seed,
+        max_universe_lines: get("ulines", "60000").parse().unwrap(),
     };
     std::fs::create_dir_all(&out).unwrap();
 
